@@ -1,1 +1,144 @@
+//! C04 — any text input ends in success or a rendered diagnostic, never a crash.
+//!
+//! Simulated dimension: the reads a compile command makes.  (a) At the syscall: every open/read
+//! event of the script, of `-m` / `#pragma mapfile` mapfiles, of the gamemap's target and of image
+//! sources x {ENOENT, EACCES, EISDIR, EMFILE, EIO}, short reads, EINTR, chunked reads.  (b) In
+//! storage: the script and the mapfiles as the disk returns them after truncation, byte faults,
+//! duplicated/lost blocks, stray invalid-UTF-8 / NUL / CR bytes and torn mixes of two sources.
+//! Monitors: O-term (panic, abort, stack overflow, hang, bug-severity or unrenderable diagnostic),
+//! O-diag (failure <=> error diagnostic); read faults additionally: success => same outputs as the
+//! fault-free run.
 
+use crate::case::{Base, Case};
+use crate::corrupt::{self, Corruption};
+use crate::engine::*;
+use crate::report::CheckResult;
+use crate::rng::{self, Rng};
+use crate::scen;
+use serde_json::json;
+use std::collections::BTreeMap;
+
+pub fn run(ctx: &Ctx) -> CheckResult {
+    let quick = ctx.tier == Tier::Quick;
+    let items: Vec<_> = scen::source_items(&ctx.corpus).into_iter().cloned().collect();
+    let mut bases: Vec<Case> = items
+        .iter()
+        .map(|item| {
+            let mut c = scen::compile_case(item, false);
+            c.property = "C04".into();
+            c.oracle = "term".into();
+            c
+        })
+        .collect();
+    // a corpus map file read through `#pragma mapfile "map/any.*"` / gamemap indirection is attacked
+    // by replacing the tree file with an explicit input of the same path
+    for c in bases.iter_mut() {
+        let text = c.inputs.iter().find(|i| i.path == scen::SRC).and_then(|i| if let Base::Text(t) = &i.base { Some(t.clone()) } else { None }).unwrap_or_default();
+        for (prag, target) in [("map/any.anmm", "map/v4.anmm"), ("map/any.stdm", "map/th08.stdm"), ("map/any.msgm", "map/th06.msgm"), ("map/any.eclm", "map/th06.eclm")] {
+            if text.contains(prag) {
+                c.inputs.push(crate::case::Input::corpus(prag));
+                if ctx.corpus.tree.contains_key(target) {
+                    c.inputs.push(crate::case::Input::corpus(target));
+                }
+            }
+        }
+    }
+    // fault-free baseline of everything (O-term / O-diag on the pristine corpus, incl. compile-fail snippets)
+    let (_r, mut stats, mut findings, mut herr) = par_map(ctx, &bases, |w, _, c| w.judge(c));
+
+    // ---- storage corruptions
+    // which inputs of a case are text under attack: the script, its mapfiles, pragma/gamemap map files
+    let attackable = |c: &Case| -> Vec<usize> { c.inputs.iter().enumerate().filter(|(_, i)| !matches!(i.base, Base::Tree(_))).map(|(k, _)| k).collect() };
+    let n_items = if quick { 56 } else { bases.len() };
+    let mut order: Vec<usize> = (0..bases.len()).collect();
+    Rng::new(rng::mix(ctx.seed, "c04-items", 0)).shuffle(&mut order);
+    // competition / extra items first, then the shuffled rest
+    order.sort_by_key(|&i| if bases[i].name.contains("extra/") { 0 } else { 1 });
+    order.truncate(n_items);
+    order.sort();
+    let per_file = if quick { 110 } else { 600 };
+    let mut work: Vec<(usize, usize, Vec<Corruption>)> = vec![];
+    let mut n_space = 0usize;
+    let mut kinds: BTreeMap<&'static str, u64> = BTreeMap::new();
+    let src_peers: Vec<String> = vec!["tests/integration/resources/th12-embedded-image-source.anm.spec".into(), "map/v4.anmm".into()];
+    for &bi in &order {
+        let c = &bases[bi];
+        let files = crate::case::materialise(&c.inputs, &ctx.corpus);
+        for ii in attackable(c) {
+            let path = &c.inputs[ii].path;
+            let data = match files.iter().find(|(p, _)| p == path) {
+                Some((_, d)) => d.clone(),
+                None => continue,
+            };
+            let all = corrupt::text_faults(&data, &src_peers);
+            n_space += all.len();
+            let want = if path == scen::SRC { per_file } else { per_file / 3 };
+            let seed = rng::mix(ctx.seed, &format!("{}:{}", c.name, path), 4);
+            let far = (all.len() / want.max(1)).max(1);
+            let mut sel = corrupt::select(&all, 0, 1, far, seed);
+            if !quick {
+                let mut r = Rng::new(seed ^ 0xD0B1E);
+                sel.extend(corrupt::double_faults(&all, want / 6, &mut r));
+            }
+            for s in &sel {
+                *kinds.entry(s.kind).or_insert(0) += 1;
+            }
+            for ch in sel.chunks(48) {
+                work.push((bi, ii, ch.to_vec()));
+            }
+        }
+    }
+    let n_selected: usize = work.iter().map(|w| w.2.len()).sum();
+    let (_r, st, f2, h2) = par_map(ctx, &work, |w, _, (bi, ii, vs)| {
+        for c in vs {
+            let case = apply_variant(&bases[*bi], &Variant { corrupt: Some((*ii, c.ops.clone())), plan: None, tag: format!("{}@{}", c.kind, c.off) });
+            w.judge(&case);
+        }
+    });
+    stats.merge(st);
+    findings.extend(f2);
+    herr.extend(h2);
+
+    // ---- read-time faults
+    let rt_items: Vec<usize> = if quick { thin(&order, 14, ctx.seed) } else { (0..bases.len()).collect() };
+    let (_r, st, f3, h3) = par_map(ctx, &rt_items, |w, _, bi| {
+        let base = &bases[*bi];
+        let g = w.golden(base);
+        if g.is_empty() {
+            return;
+        }
+        let mut vs = enumerate_faults(0, &g[0], &FaultSpace { read_side: true, write_side: false, budgets: Budgets::Boundaries, seed: 0 });
+        vs.extend(noise_variants(0, true, false));
+        if quick {
+            vs = thin(&vs, 40, rng::mix(w.ctx.seed, &base.name, 5));
+        }
+        for v in vs {
+            let case = apply_variant(base, &v);
+            w.judge(&case);
+        }
+    });
+    stats.merge(st);
+    findings.extend(f3);
+    herr.extend(h3);
+
+    let mut extra = BTreeMap::new();
+    extra.insert("compile_scenarios".into(), json!(bases.len()));
+    extra.insert("scenarios_attacked_in_storage".into(), json!(order.len()));
+    extra.insert("single_fault_space_size_of_attacked_files".into(), json!(n_space));
+    extra.insert("storage_faults_selected".into(), json!(n_selected));
+    extra.insert("storage_fault_kinds_selected".into(), json!(kinds));
+    extra.insert("scenarios_attacked_at_read_time".into(), json!(rt_items.len()));
+    let samples: Vec<_> = work.iter().step_by((work.len() / 3).max(1)).take(3).map(|(bi, ii, vs)| json!({"scenario": bases[*bi].name, "file": bases[*bi].inputs[*ii].path, "command": bases[*bi].steps[0].argv.join(" "), "corruption": vs[0].ops})).collect();
+    CheckResult {
+        property: "C04".into(),
+        level: "fault_enumeration",
+        stats,
+        findings,
+        harness_errors: herr,
+        rule: "fault-free run of every corpus source (incl. compile-fail snippets and the competition set); storage faults of the script, its -m mapfiles and the pragma/gamemap map files (truncation at every offset, 13 byte values per offset, dup/del blocks, inserted invalid UTF-8 / NUL / CR / BOM, torn mixes) - a seed-rotated slice of the enumerated space, the union over seeds is complete; read-time faults on every open/read event (5 errnos, short reads) plus EINTR periods and chunkings; non-trivial = input corrupted, fault fired, or the command failed; distinct = (scenario, file, corruption/plan)".into(),
+        samples,
+        extra,
+        exhaustive: false,
+        assumptions: vec!["grammar-directed generation of ill-typed programs, extreme literals and deep nesting is pure input-space exploration and is not covered".into(), "release profile, as shipped".into()],
+    }
+}
